@@ -30,7 +30,7 @@ def MAYBE(t):
 
 BLOB_P = ("blob", "P", (("x", INT), ("y", STR)))
 BLOB_Q = ("blob", "Q", (("p", BLOB_P), ("t", TUP(INT, FLOAT))))
-ENUM_E = ("enum", "E", (("A", INT), ("B", TUP(INT, STR)), ("C", None)))
+ENUM_E = ("enum", "E", (("A", INT), ("B", TUP(INT, STR)), ("C", None), ("D", BOOL)))
 DECLS = """P :: blob {
     x: int,
     y: str,
@@ -43,6 +43,7 @@ E :: enum
     A int,
     B (int, str),
     C,
+    D bool,
 end
 """
 
@@ -90,8 +91,34 @@ def type_depth(t):
     return 0
 
 
+def falsy(t):
+    """the value of type t that Lua-style truthiness / emptiness tests get wrong most easily"""
+    k = t[0]
+    if k == "int":
+        return 0
+    if k == "float":
+        return Fraction(0)
+    if k == "str":
+        return ""
+    if k == "bool":
+        return False
+    if k == "tuple":
+        return tuple(falsy(x) for x in t[1])
+    if k == "list":
+        return []
+    if k == "maybe":
+        return ("Just", falsy(t[1]))
+    if k == "blob":
+        return {f: falsy(ft) for f, ft in t[2]}
+    if k == "enum":
+        return ("D", False) if t is ENUM_E else (t[2][0][0], falsy(t[2][0][1]) if t[2][0][1] else None)
+    raise ValueError(t)
+
+
 def gen_value(r, t, strs=STRS_SAFE, small=False):
     k = t[0]
+    if r.random() < 0.12:
+        return falsy(t)
     if k == "int":
         return r.choice(INTS[:11]) if small or r.random() < 0.8 else r.choice(INTS)
     if k == "float":
@@ -427,7 +454,8 @@ SY_OPS = {"eq": "==", "ne": "!=", "lt": "<", "le": "<=", "gt": ">", "ge": ">=", 
 
 
 class OpCase:
-    """kind: op2 | op1 | fn;  args: list of (value, type)"""
+    """kind: op2 | op1 | fn | case;  args: list of (value, type).
+    case: args = [(m, Maybe(t)), (w, t)]: `case m do Just x -> print(x <name> w) end None -> print("none") end end`"""
 
     def __init__(self, kind, name, args, cls):
         self.kind, self.name, self.args, self.cls = kind, name, args, cls
@@ -439,6 +467,8 @@ class OpCase:
             return "OP2 %s %s" % (self.name, toks)
         if self.kind == "op1":
             return "OP1 %s %s" % (self.name, toks)
+        if self.kind == "case":
+            return "CASE %s %s" % (self.name, toks)
         return "FN %s %d %s" % (self.name, len(self.args), toks)
 
     def lua_expr(self):
@@ -449,6 +479,10 @@ class OpCase:
             return "(%s %s %s)" % (a[0], LUA_OPS[self.name], a[1])
         if self.kind == "op1":
             return "(-%s)" % a[0] if self.name == "neg" else a[0]
+        if self.kind == "case":
+            inner = "__ADD(x, %s)" % a[1] if self.name == "add" else "(x %s %s)" % (LUA_OPS[self.name], a[1])
+            return ('(function() local m = %s; if __INDEX(m, 1) == "Just" then local x = __INDEX(m, 2); return %s '
+                    'else return "none" end end)()' % (a[0], inner))
         f = {"div": "div", "sign": "sign", "floor": "floor", "rem": "rem", "index": "__INDEX"}[self.name]
         return "%s(%s)" % (f, ", ".join(a))
 
@@ -462,6 +496,8 @@ class OpCase:
             return "%s %s %s" % (a[0], SY_OPS[self.name], a[1])
         if self.kind == "op1":
             return "-%s" % a[0] if self.name == "neg" else a[0]
+        if self.kind == "case":
+            return "case %s do Just x -> x %s %s ... end" % (a[0], SY_OPS[self.name], a[1])
         if self.name == "index":
             return "%s[%s]" % (a[0], a[1])
         return "%s(%s)" % (self.name, ", ".join(a))
@@ -470,6 +506,10 @@ class OpCase:
         """printed line per the plain model, or raises Undefined"""
         n = self.name
         (a, t) = self.args[0]
+        if self.kind == "case":
+            if a[0] != "Just":
+                return "none"
+            return OpCase("op2", n, [(a[1], t[1]), self.args[1]], self.cls).expected()
         if self.kind == "op2":
             (b, tb) = self.args[1]
             if n == "eq":
@@ -552,8 +592,23 @@ def gen_op_case(r, depth, strs=STRS_SAFE, welltyped_only=True, kinds=None):
         # the checker admits < and > between an int and a float
         ta, tb = r.choice([(INT, FLOAT), (FLOAT, INT)])
         return OpCase("op2", r.choice(["lt", "gt"]), [(gen_value(r, ta, strs), ta), (gen_value(r, tb, strs), tb)], "cmp-mixed")
-    t = gen_type(r, depth, all_kinds)
-    return OpCase("op1", "tostring", [(gen_value(r, t, strs), t)], "tostring")
+    if x < 0.975:
+        t = gen_type(r, depth, all_kinds)
+        return OpCase("op1", "tostring", [(gen_value(r, t, strs), t)], "tostring")
+    # a payload bound by a `case` arm, then compared / ordered / added
+    y = r.random()
+    if y < 0.6:
+        t = gen_type(r, max(0, depth - 1), all_kinds)
+        name = r.choice(["eq", "ne"])
+    elif y < 0.85:
+        t = gen_type(r, max(0, depth - 1), ("int", "float", "str", "tuple"))
+        name = r.choice(["lt", "le", "gt", "ge"])
+    else:
+        t = gen_type(r, max(0, depth - 1), ("int", "float", "str", "tuple"))
+        name = "add"
+    a, b = gen_pair(r, t, strs)
+    m = ("Just", a) if r.random() < 0.85 else ("None",)
+    return OpCase("case", name, [(m, MAYBE(t)), (b, t)], "case-bound")
 
 
 def gen_fn_case(r):
@@ -579,12 +634,39 @@ def gen_fn_case(r):
 # ------------------------------------------------------------------------------------------------
 # histories (C18)
 
-ELEM_TYPES = [INT, STR, TUP(INT, STR), TUP(INT, INT), FLOAT]
+ELEM_TYPES = [INT, STR, TUP(INT, STR), TUP(INT, INT), FLOAT, BOOL, BOOL, TUP(BOOL, INT), LIST(INT)]
 KEY_TYPES = [INT, STR, TUP(INT, INT), TUP(STR, STR), TUP(INT, STR)]
 
 
 def t_name(t):
     return sy_type(t)
+
+
+def case_text(x, present, v, t):
+    """what a `case` arm that binds the payload x prints: x | x == v [| yes/no of `if x` for bools]; "none" otherwise"""
+    if not present:
+        return "none"
+    out = show(x, t) + "|" + show(x == v, BOOL)
+    if t == BOOL:
+        out += "|" + ("yes" if x else "no")
+    return out
+
+
+def lua_case(m_expr, v, t):
+    """the Lua the compiler emits for that `case`: tag and payload are read with __INDEX"""
+    body = 'tostring(x) .. "|" .. tostring(x == %s)' % lua(v, t)
+    if t == BOOL:
+        body += ' .. "|" .. (x and "yes" or "no")'
+    return ('local m = %s; if __INDEX(m, 1) == "Just" then local x = __INDEX(m, 2); return %s else return "none" end'
+            % (m_expr, body))
+
+
+def sy_case(m_expr, v, t):
+    body = 'as_str(x) + "|" + as_str(x == %s)' % sy(v, t)
+    if t == BOOL:
+        body += ' + "|" + (if x do "yes" else do "no" end)'
+    return ["    case %s do" % m_expr, "        Just x ->", "            print(%s)" % body, "        end",
+            "        None -> print(\"none\") end", "    end"]
 
 
 class ListHistory:
@@ -615,6 +697,8 @@ class ListHistory:
             elif n == "geteq":
                 # the library's answer compared (==) with the same Maybe written in the program
                 o, ot = True, BOOL
+            elif n == "getcase":
+                o, ot = case_text(l[op[1]] if 0 <= op[1] < len(l) else None, 0 <= op[1] < len(l), op[2], et), STR
             elif n == "getisjust":
                 o, ot = (0 <= op[1] < len(l)), BOOL
             elif n == "getisnone":
@@ -661,6 +745,8 @@ class ListHistory:
                 parts.append("get I%d" % op[1])
             elif n == "geteq":
                 parts.append("geteq I%d %s" % (op[1], tok(self.plain_get(op), MAYBE(et))))
+            elif n == "getcase":
+                parts.append("getcase I%d %s" % (op[1], tok(op[2], et)))
             elif n in ("getisjust", "getisnone"):
                 parts.append("%s I%d" % (n, op[1]))
             elif n == "getordefault":
@@ -723,6 +809,8 @@ class ListHistory:
                 e = "return list_get(l, %d)" % op[1]
             elif n == "geteq":
                 e = "return list_get(l, %d) == %s" % (op[1], lua(self.plain_get(op), MAYBE(et)))
+            elif n == "getcase":
+                e = lua_case("list_get(l, %d)" % op[1], op[2], et)
             elif n == "set":
                 e = "list_set(l, %d, %s)" % (op[1], lua(op[2], et))
             elif n == "len":
@@ -778,7 +866,9 @@ class ListHistory:
                 obs = "list.contains(l, %s)" % sy(op[1], et)
             elif n == "last":
                 obs = "list.last(l)"
-            if obs is None:
+            if n == "getcase":
+                L.extend(sy_case("list.get(l, %s)" % sy(op[1], INT), op[2], et))
+            elif obs is None:
                 L.append("    print(nil)")
             else:
                 L.append("    print(%s)" % obs)
@@ -814,6 +904,7 @@ def gen_list_history(r, nops, et=None, strs=STRS_SAFE, preamble_only=False, nega
         names = [n for n in names if n not in ("contains", "last")]
     if not is_add(et):
         names = [n for n in names if n not in ("map", "fold")]
+    names = names + ["getcase", "getcase"]
     if geteq:
         names = names + ["geteq", "geteq"]
     if not preamble_only:
@@ -843,6 +934,8 @@ def gen_list_history(r, nops, et=None, strs=STRS_SAFE, preamble_only=False, nega
             ops.append((n, r.choice([0, 1, 2, 3, 5, 9, -1, -2])))
         elif n == "getordefault":
             ops.append((n, r.choice([0, 1, 2, 5, 9, -1]), g()))
+        elif n == "getcase":
+            ops.append((n, r.choice([0, 0, 1, 2, 3, 9]), g()))
         elif n == "set":
             idx = [0, 0, 1, 2, 3, 5, 9] + ([-1, -2] if negative_set else [])
             ops.append((n, r.choice(idx), g()))
@@ -898,6 +991,8 @@ class KeyedHistory:
                     out.append(show(("Just", d[op[1]]) if op[1] in d else ("None",), MAYBE(self.vt)))
                 elif n == "geteq":
                     out.append("true")
+                elif n == "getcase":
+                    out.append(case_text(d.get(op[1]), op[1] in d, op[2], self.vt))
                 elif n == "len":
                     out.append(str(len(d)))
                 elif n == "has":
@@ -937,6 +1032,8 @@ class KeyedHistory:
                 parts.append("%s %s" % (n, tok(op[1], kt)))
             elif n == "geteq":
                 parts.append("geteq %s %s" % (tok(op[1], kt), tok(self.plain_get(op), MAYBE(vt))))
+            elif n == "getcase":
+                parts.append("getcase %s %s" % (tok(op[1], kt), tok(op[2], vt)))
             elif n == "len":
                 parts.append("len")
             elif n == "fromlist":
@@ -964,6 +1061,8 @@ class KeyedHistory:
                     e = "return dict_get(d, %s)" % lua(op[1], kt)
                 elif n == "geteq":
                     e = "return dict_get(d, %s) == %s" % (lua(op[1], kt), lua(self.plain_get(op), MAYBE(vt)))
+                elif n == "getcase":
+                    e = lua_case("dict_get(d, %s)" % lua(op[1], kt), op[2], vt)
                 elif n == "len":
                     e = "return xx_len(d)"
                 elif n == "fromlist":
@@ -1006,6 +1105,8 @@ class KeyedHistory:
                 L.append("    print(dict.get(d, %s))" % sy(op[1], kt))
             elif n == "geteq":
                 L.append("    print(dict.get(d, %s) == %s)" % (sy(op[1], kt), sy(self.plain_get(op), MAYBE(vt))))
+            elif n == "getcase":
+                L.extend(sy_case("dict.get(d, %s)" % sy(op[1], kt), op[2], vt))
             elif n == "len":
                 L.append("    print(%s.len(d))" % m)
             elif n == "has":
@@ -1036,7 +1137,7 @@ def gen_keyed_history(r, nops, kind=None, kt=None, strs=STRS_SAFE, preamble_only
     allow_collisions=False: all keys of the history have different printed forms."""
     kind = kind or r.choice(["dict", "set"])
     kt = kt or r.choice(KEY_TYPES)
-    vt = r.choice([INT, STR, TUP(INT, INT)])
+    vt = r.choice([INT, STR, TUP(INT, INT), BOOL, BOOL, FLOAT])
     keys = [gen_value(r, kt, strs, small=True) for _ in range(7)]
     if not allow_collisions:
         keys = distinct_printed(keys, kt)
@@ -1053,6 +1154,7 @@ def gen_keyed_history(r, nops, kind=None, kt=None, strs=STRS_SAFE, preamble_only
         names = ["update", "update", "update", "remove", "get", "get", "len", "has"]
         if preamble_only:
             names = [n for n in names if n != "has"]
+        names += ["getcase", "getcase"]
         if geteq:
             names += ["geteq", "geteq"]
     else:
@@ -1064,6 +1166,9 @@ def gen_keyed_history(r, nops, kind=None, kt=None, strs=STRS_SAFE, preamble_only
         present = set(k for k, _ in op[1]) if kind == "dict" else set(op[1])
     while len(ops) < nops:
         n = r.choice(names)
+        if n == "getcase":
+            ops.append((n, gk(), gv()))
+            continue
         if n == "geteq":
             k = gk()
             if geteq == "just" and k not in present:
@@ -1096,7 +1201,7 @@ def gen_keyed_history(r, nops, kind=None, kt=None, strs=STRS_SAFE, preamble_only
 import copy as _copy
 
 ALIAS_STRS = ["", "a", "b", "ab", "x y", "c"]
-ALIAS_ELEM_TYPES = [INT, INT, STR, TUP(INT, STR), TUP(INT, INT), LIST(INT)]
+ALIAS_ELEM_TYPES = [INT, INT, STR, TUP(INT, STR), TUP(INT, INT), LIST(INT), BOOL]
 
 
 class AliasHistory:
@@ -1405,10 +1510,10 @@ def gen_alias_history(r, nops, et=None, preamble_only=False):
     pool = [gen_value(r, et, strs, small=True) for _ in range(5)]
     g = lambda: r.choice(pool) if r.random() < 0.8 else gen_value(r, et, strs, small=True)
     third = ["list", "list"]
-    if not nested:
+    if not nested and is_ord(et):                       # keys must be comparable (K: CmpEqu)
         third.append("set")
-        if et[0] == "tuple" and len(et[1]) == 2:
-            third += ["dict", "dict"]
+    if et[0] == "tuple" and len(et[1]) == 2 and is_ord(et[1][0]):
+        third += ["dict", "dict"]
     kinds = ["list", "list", r.choice(third)]
     ops = []
     # the keyed register first (see the class comment), then the lists
@@ -1609,6 +1714,10 @@ def op_program(cases):
             nm = "v%d_%d" % (j, k)
             lines.append("    %s: %s = %s" % (nm, sy_type(t), sy(v, t, c.blob_order if k == 1 else None)))
             names.append(nm)
+        if c.kind == "case":
+            lines += ["    case %s do" % names[0], "        Just x -> print(x %s %s) end" % (SY_OPS[c.name], names[1]),
+                      "        None -> print(\"none\") end", "    end"]
+            continue
         if c.kind == "op2":
             e = "%s %s %s" % (names[0], SY_OPS[c.name], names[1])
         elif c.kind == "op1":
